@@ -1,6 +1,7 @@
 package ed25519
 
 import (
+	"strings"
 	"crypto"
 	"fmt"
 	"io"
@@ -660,6 +661,162 @@ func jobC06(c *rt.Ctx) {
 					}
 					if !same {
 						c.Violation("C06 chunkseq differential", fmt.Sprintf("chunk %d of sequence %v reports differently than the same chunk as the first chunk of a fresh call", last, seq), map[string]interface{}{"sequence": fmt.Sprint(seq)})
+					}
+				}
+			}
+		}
+	}
+	// level big: batch sizes around the widths of small integer types and well beyond the chunk length
+	// (255, 256, 257, 320, 1024, ...; thorough: 4099 and 65537 entries), bad entries at the positions
+	// where an index, a counter or an offset of such a width would wrap
+	c.Require("level-big")
+	bigSizes := []int{255, 256, 257, 320, 511, 513, 1024, 1025}
+	if c.Thorough() {
+		bigSizes = append(bigSizes, 2049, 4099, 65537)
+	}
+	for bi, n := range bigSizes {
+		var sets [][]int
+		sets = append(sets, nil, []int{0}, []int{n - 1}, []int{255 % n}, []int{0, n - 1})
+		if n > 256 {
+			sets = append(sets, []int{256}, []int{255, 256}, []int{0, 256}, []int{n - 1 - 256})
+		}
+		if n > 1024 {
+			sets = append(sets, []int{1024}, []int{1023, n - 1})
+		}
+		if n > 65536 {
+			sets = append(sets, []int{65536}, []int{0, 65536}, []int{65535})
+		}
+		for si, set := range sets {
+			for oi, o := range opts {
+				if (bi+si)%len(opts) != oi && !(c.Thorough() && n <= 1025) {
+					continue
+				}
+				if !c.Take() {
+					continue
+				}
+				bad := map[int]string{}
+				for j, p := range set {
+					bad[p] = c06Kinds[1+(bi+si+j+oi)%5] // wrong-msg, R/S/key bit flips, S+L
+				}
+				es, ks := build(n, bad, o.vs)
+				c.Class("level-big")
+				c.Distinct(fmt.Sprintf("big %d %d %d", n, si, oi), true)
+				ent := (bi + si) % 2 // streams standing for "uniformly random" when some entry is invalid
+				if len(set) == 0 {
+					ent = (bi + oi) % 5 // all valid: every stream, including the constant ones
+				}
+				checkBatch(c, "level-big", es, ks, o.vs, o.zip, ent, fmt.Sprintf("big-%d-%d", n, si))
+			}
+		}
+	}
+	// level dense-len: for EVERY length P in 0..8320 (and windows around 16384, 32768, 65536) a batch of
+	// short honest entries plus one entry whose signature is valid for the first P bytes of its message
+	// and whose message has P+1 bytes (odd P: P+32 bytes) - and the honest P-byte entry itself. However
+	// the batch path buffers R || A || M, it must judge the entry as single verification does.
+	c.Require("level-dense-len")
+	var dl []int
+	for l := 0; l <= 8320; l++ {
+		dl = append(dl, l)
+	}
+	for _, m := range []int{16384, 32768, 65536} {
+		for l := m - 330; l <= m+40; l++ {
+			dl = append(dl, l)
+		}
+	}
+	for li, l := range dl {
+		for vi, vs := range []variantSpec{vPure, vCtx, {ref.Ctx, strings.Repeat("k", 255)}} {
+			if !c.Thorough() && vi > 0 && (l+vi)%2 == 0 {
+				continue
+			}
+			if !c.Take() {
+				continue
+			}
+			seed := seedOf(900 + li%5)
+			msg := msgLen(l, li)
+			honest := triple{ref.Public(seed), msg, ref.Sign(seed, msg, vs.v, []byte(vs.ctx))}
+			ext := 1
+			if l%2 == 1 {
+				ext = 32
+			}
+			longer := triple{honest.key, append(append([]byte{}, msg...), msgLen(ext, l)...), honest.sig}
+			// the neighbours carry one-byte messages: a neighbour that the same buffering got wrong would
+			// send the chunk to the fallback and hide the entry under test
+			es, ks := make([]triple, 5), []string{"good", "good", "good", "good", "good"}
+			for i := range es {
+				es[i] = honestTriple(5100+i, []byte{byte(i)}, vs)
+			}
+			es[li%5], ks[li%5] = longer, "signed-prefix"
+			if li%5 != 2 {
+				es[2], ks[2] = honest, "good"
+			}
+			c.Class("level-dense-len")
+			c.Distinct(fmt.Sprintf("dlen %d %d", l, vi), true)
+			checkBatch(c, "level-dense-len", es, ks, vs, li%2 == 1, li%2, fmt.Sprintf("dlen-%d", l))
+		}
+	}
+	// level near-dup: neighbours that share all but one component. entries[p] is an honest entry and
+	// entries[p+1] the SAME entry with one component spoilt (or the other way round; or the spoilt entry
+	// twice; or every entry of the batch the same spoilt entry), with and without an unrelated bad entry
+	// elsewhere in the chunk (which sends the chunk to the per-signature fallback). Shortcuts keyed on
+	// "same as the previous entry" (same key, same R || A || M hash, same signature bytes) must not
+	// carry a verdict over.
+	c.Require("level-near-dup")
+	allKinds := append(append([]string{}, c06Kinds[1:]...), c06CrossKinds...)
+	for _, n := range []int{4, 8, 68, 70, 132} {
+		var ps []int
+		for _, p := range []int{0, 2, n - 2, 62, 63, 64, 66, 127, 128} {
+			if p >= 0 && p+1 < n {
+				ps = append(ps, p)
+			}
+		}
+		for pi, p := range ps {
+			for ki, kind := range allKinds {
+				for form := 0; form < 5; form++ {
+					for force := 0; force < 2; force++ {
+						oi := (pi + ki + form + force + n) % len(opts)
+						if !c.Thorough() && (ki+pi+form+force)%3 != 0 && n > 8 {
+							continue
+						}
+						if form == 4 && (pi > 0 || force > 0) {
+							continue
+						}
+						if !c.Take() {
+							continue
+						}
+						o := opts[oi]
+						es, ks := build(n, nil, o.vs)
+						spoilt := mkEntry(kind, p, o.vs)
+						switch form {
+						case 0: // honest, then its spoilt copy
+							es[p+1], ks[p+1] = spoilt, kind
+						case 1: // spoilt copy, then the honest entry
+							es[p+1], ks[p+1] = es[p], "good"
+							es[p], ks[p] = spoilt, kind
+						case 2: // the spoilt entry twice
+							es[p], ks[p] = spoilt, kind
+							es[p+1], ks[p+1] = spoilt, kind
+						case 3: // honest, honest copy, spoilt copy
+							es[p+1], ks[p+1] = es[p], "good"
+							if p+2 < n {
+								es[p+2], ks[p+2] = spoilt, kind
+							}
+						case 4: // every entry the same spoilt entry
+							for i := range es {
+								es[i], ks[i] = spoilt, kind
+							}
+						}
+						if force == 1 {
+							q := (p + 5) % n
+							if q/64 != p/64 || q == p || q == p+1 || q == p+2 {
+								q = (p/64)*64 + (p%64+9)%minI(64, n-(p/64)*64)
+							}
+							if q != p && q != p+1 && q != p+2 {
+								es[q], ks[q] = mkEntry("wrong-msg", q, o.vs), "wrong-msg"
+							}
+						}
+						c.Class("level-near-dup")
+						c.Distinct(fmt.Sprintf("nd %d %d %d %d %d", n, p, ki, form, force), true)
+						checkBatch(c, "level-near-dup", es, ks, o.vs, o.zip, (n+p+ki)%2, fmt.Sprintf("nd-%d-%d", n, p))
 					}
 				}
 			}
